@@ -39,7 +39,7 @@ def _real(cls, kws, with_data, env):
 
 def generate(repo):
     import dali.device  # noqa
-    from dali.device import general as dg, pushbutton, light
+    from dali.device import general as dg, pushbutton, light, occupancy
     rng = random.Random(20261002)
 
     def walk(c):
@@ -51,16 +51,18 @@ def generate(repo):
              and isinstance(getattr(c, "_instance_type", None), int)]
     lights = [c for c in walk(dg._Event) if c.__init__ is dg._Event.__init__
               and c._set_event_data is light.LightEvent._set_event_data]
-    if not plain or not lights:
+    occs = [c for c in walk(dg._Event) if c.__init__ is dg._Event.__init__
+            and c._set_event_data is occupancy.OccupancyEvent._set_event_data]
+    if not plain or not lights or not occs:
         raise RuntimeError("event families not found")
     out = ["import DaliVerif.Model.PyInt", "set_option linter.unusedVariables false",
            "namespace DaliVerif.Gen.SrcEvent", ""]
     summ = {}
-    for fam, classes, with_data in (("ev", plain, False), ("evLight", lights, True)):
+    for fam, classes, with_data in (("ev", plain, False), ("evLight", lights, True), ("evOcc", occs, True)):
         for sname, kws in SCHEMES:
             params = ["info", "itype"] + kws + (["data"] if with_data else [])
             rep = st.Entry("%s_%s" % (fam, sname), params, "Int", _mk(classes[0], kws, with_data),
-                           "%s(%s%s) : contents of .frame" % ("_Event.__init__" if not with_data else "LightEvent",
+                           "%s(%s%s) : contents of .frame" % ({"ev": "_Event.__init__", "evLight": "LightEvent", "evOcc": "OccupancyEvent"}[fam],
                                                              ", ".join(kws), ", data" if with_data else "")).trace()
             for c in classes[1:]:
                 t = st.Entry(rep.name, params, "Int", _mk(c, kws, with_data)).trace()
@@ -73,7 +75,7 @@ def generate(repo):
                     for k in kws:
                         env[k] = rng.choice([-1, 0, 1, 31, 32, 63, 64, rng.randrange(64)])
                     if with_data:
-                        env["data"] = rng.choice([-1, 0, 1, 1023, 1024, rng.randrange(1024)])
+                        env["data"] = rng.choice([-1, 0, 1, 15, 16, 1023, 1024, rng.randrange(16), rng.randrange(1024)])
                     try:
                         want = ('ok', _real(c, kws, with_data, env))
                     except Exception as e:  # noqa
@@ -88,4 +90,4 @@ def generate(repo):
             summ[rep.name] = rep.npaths
         out.append("def %sClasses : List String := [%s]\n" % (fam, ", ".join('"%s"' % c.__name__ for c in classes)))
     out.append("end DaliVerif.Gen.SrcEvent")
-    return "\n".join(out) + "\n", {"paths": summ, "plain": len(plain), "light": len(lights)}
+    return "\n".join(out) + "\n", {"paths": summ, "plain": len(plain), "light": len(lights), "occupancy": len(occs)}
